@@ -14,7 +14,13 @@ WIDTH_CLASSES = {
 AWKWARD_NAMES = ['b.x', 'c-y', 'a[0]', 'a[1]', '3w', 'wire', 'always', 'x1', 'x01', 'x001',
                  'reg', 'assign', 'q$', 'a b', 'out', 'in', 'module', 'x10', 'x2', 'é',
                  'input', 'output', 'tmp', 'begin', 'end', 'my_sig', 'X1', 'a.b.c', 'n-1',
-                 'a[10]', 'a[9]', 'a[2]', 'v.10', 'v.9']
+                 'a[10]', 'a[9]', 'a[2]', 'v.10', 'v.9',
+                 # pairs that differ only in their illegal characters, and plain names that equal
+                 # a punctuated one once the punctuation is dropped
+                 'b x', 'c.y', 'a(0)', 'v 9', 'a0', 'bx', 'v10', 'a.b-c']
+
+COLLIDING_NAME_PAIRS = [('b.x', 'b x'), ('c-y', 'c.y'), ('a[0]', 'a(0)'), ('v.9', 'v 9'),
+                        ('a[0]', 'a0'), ('b.x', 'bx'), ('v.10', 'v10'), ('a.b.c', 'a.b-c')]
 
 COMB_OPS = 'w~&|^n+-*<>=xcs'
 
@@ -105,6 +111,10 @@ class _G(object):
         self.awk = list(AWKWARD_NAMES)
         self.awk_used = {}
         rng.shuffle(self.awk)
+        if cfg.get('awk_pair_prob') and rng.random() < cfg['awk_pair_prob']:
+            # make sure two names that differ only in punctuation meet in one design
+            pair = rng.choice(COLLIDING_NAME_PAIRS)
+            self.awk = [n for n in self.awk if n not in pair] + list(pair)
 
     # -- names ------------------------------------------------------------------------
     def name(self, prefix, user_visible=False):
@@ -432,6 +442,10 @@ def gen_script(rng, cfg):
         if cfg.get('const_quote_prob') and rng.random() < cfg['const_quote_prob']:
             # the name PyRTL gives a Verilog-style string constant: const_<n>_<w>'h<v>
             qn = "const_%s_%d'h%x" % (cn[1:], w, cv)
+            if rng.random() < 0.4:
+                # or a name of the user's own with punctuation in it, sharing its first part
+                # with other constants
+                qn = rng.choice(['cfg.lo', 'cfg.hi', 'cfg-x', 'k.0', 'k.1'])
             if qn not in g.names:
                 g.names.add(qn)
                 cn = qn
